@@ -16,7 +16,8 @@ import (
 )
 
 // Item programs for the ID placeholder: a '|'-separated list of actions
-//   S<x> set placeholder to x    R read it    G GetIdOrPlaceholder("")    F fail (typed error)    P panic
+//   S<x> set placeholder to x    R read it    G GetIdOrPlaceholder("")    E GetIdOrPlaceholder("explicit") (must not touch the placeholder)
+//   F fail (typed error)    P panic
 // The handler answers with the observations it made ("R=<v>;G=<v>").
 
 var phObj mc.Obj // placeholder accesses are declared as conflicting accesses to one object (keeps the state cache from merging their orders)
@@ -54,6 +55,12 @@ func phHandler(yield bool) func(ctx context.Context, req *payloads.ActivateReque
 				if yield {
 					mc.Observe(mc.HashStr(v))
 				}
+			case 'E':
+				v, err := kmipserver.GetIdOrPlaceholder(ctx, "explicit")
+				if err != nil {
+					return nil, err
+				}
+				obs = append(obs, "E="+v)
 			case 'F':
 				return nil, kmipserver.Errorf(kmip.ResultReasonItemNotFound, "scripted failure")
 			case 'P':
@@ -92,6 +99,8 @@ func phModel(items []string, stop bool) []string {
 				} else {
 					obs = append(obs, "G="+ph)
 				}
+			case 'E':
+				obs = append(obs, "E=explicit")
 			case 'F', 'P':
 				failed = true
 			}
@@ -154,7 +163,7 @@ func phCheck(resp *kmip.ResponseMessage, items []string, stop bool) string {
 }
 
 func phItemPrograms(maxActions int) []string {
-	acts := []string{"Sa", "Sb", "R", "G", "F"}
+	acts := []string{"Sa", "Sb", "R", "G", "E", "F"}
 	progs := []string{""}
 	cur := []string{""}
 	for n := 0; n < maxActions; n++ {
